@@ -17,7 +17,13 @@ def own_chunks(T):
         if c.type in ('NEWLINE', 'NL_CONT', 'IGNORED') or is_comment_chunk(c) or c.text == '':
             continue
         # line terminators inside multi-line literals are normalised (C08 judges them)
-        out.append((c.text.replace('\r\n', '\n').replace('\r', '\n'), c.in_pp))
+        t = c.text.replace('\r\n', '\n').replace('\r', '\n')
+        if c.in_pp and '\\\n' in t and not (t[:1] in '"\'' or t.startswith(('R"', 'L"', 'u"', 'U"', 'u8"'))):
+            # a backslash-newline inside a directive is deleted in translation phase 2: '# \<newline> endif' is '# endif'
+            t = t.replace('\\\n', '')
+            if not t:
+                continue
+        out.append((t, c.in_pp))
     return out
 
 
